@@ -1,6 +1,7 @@
 package main
 
 import (
+	"time"
 	"os"
 	"fmt"
 	"math"
@@ -273,6 +274,79 @@ func (m *MonC05) PostTx(ctx sdk.Context, t *ExecTx) {
 }
 func (m *MonC05) AfterBlock(s *Sim, eb *ExecBlock) {
 	m.observe(s.Ctx(), "EndBlock", map[uint64]string{0: "mixed"})
+	if eb.Height%29 == 0 {
+		m.roundTrips(s)
+	}
+}
+
+// roundTrips: "with prices unchanged, joining and then exiting (any mix of all-asset and
+// single-asset forms) returns at most what was deposited". On a discarded branch of the committed
+// state a funded account joins every oracle pool with one asset, the clock moves past the share
+// lock, and the same account exits with all the shares it got - once in the all-asset and once in
+// the one-asset form. Nothing else happens in between and the oracle prices are the same, so what
+// comes back must not be worth more than what went in (two base units per asset of rounding).
+func (m *MonC05) roundTrips(s *Sim) {
+	app := s.N0.App
+	base := s.Ctx()
+	u := s.W.Users[len(s.W.Users)-1]
+	for _, p := range app.AmmKeeper.GetAllPool(base) {
+		if !p.PoolParams.UseOracle {
+			continue
+		}
+		for _, form := range []string{"all-asset", "one-asset"} {
+			func() {
+				defer func() { _ = recover() }()
+				ctx, _ := base.CacheContext()
+				ctx = ctx.WithEventManager(sdk.NewEventManager())
+				inDenom := p.PoolAssets[int(s.Height/29)%2].Token.Denom
+				amt := reserveOf(p, inDenom).QuoRaw(50)
+				if bal := app.BankKeeper.GetBalance(ctx, u.Addr, inDenom).Amount; bal.LT(amt) {
+					amt = bal
+				}
+				if !amt.IsPositive() {
+					return
+				}
+				price := func(d string) *big.Rat {
+					return new(big.Rat).SetFrac(app.OracleKeeper.GetAssetPriceFromDenom(ctx, d).BigInt(), big.NewInt(1))
+				}
+				if price(p.PoolAssets[0].Token.Denom).Sign() == 0 || price(p.PoolAssets[1].Token.Denom).Sign() == 0 {
+					return
+				}
+				before := app.BankKeeper.GetAllBalances(ctx, u.Addr)
+				_, shares, err := app.AmmKeeper.JoinPoolNoSwap(ctx, u.Addr, p.PoolId, sdkmath.OneInt(), sdk.NewCoins(sdk.NewCoin(inDenom, amt)))
+				if err != nil || !shares.IsPositive() {
+					return
+				}
+				later := ctx.WithBlockTime(ctx.BlockTime().Add(2 * time.Hour))
+				out := ""
+				if form == "one-asset" {
+					out = inDenom
+				}
+				if _, err := app.AmmKeeper.ExitPool(later, u.Addr, p.PoolId, shares, sdk.Coins{}, out, false); err != nil {
+					return
+				}
+				after := app.BankKeeper.GetAllBalances(later, u.Addr)
+				vin, vout, allow := new(big.Rat), new(big.Rat), new(big.Rat)
+				for _, a := range p.PoolAssets {
+					d := a.Token.Denom
+					pr := price(d)
+					delta := new(big.Int).Sub(after.AmountOf(d).BigInt(), before.AmountOf(d).BigInt())
+					if delta.Sign() < 0 {
+						vin.Add(vin, new(big.Rat).Mul(new(big.Rat).SetInt(new(big.Int).Neg(delta)), pr))
+					} else {
+						vout.Add(vout, new(big.Rat).Mul(new(big.Rat).SetInt(delta), pr))
+					}
+					allow.Add(allow, new(big.Rat).Mul(pr, big.NewRat(2, 1)))
+				}
+				s.Stats.Probe("join_exit_round_trip_checked_" + form)
+				if vout.Cmp(new(big.Rat).Add(vin, allow)) > 0 {
+					gain := new(big.Rat).Sub(vout, vin)
+					rel, _ := new(big.Rat).Quo(gain, new(big.Rat).Mul(new(big.Rat).SetInt(amt.BigInt()), price(inDenom))).Float64()
+					s.Violate("C05", "round_trip_gain_one_asset_join_"+form+"_exit", "round-trip probe", "pool %d at height %d: joining with %s%s and exiting (%s form) with the %s shares received, prices unchanged, returns %.4g of the deposit more than was put in (net out %s > net in %s at oracle prices)", p.PoolId, s.Height, amt, inDenom, form, shares, rel, vout.FloatString(0), vin.FloatString(0))
+				}
+			}()
+		}
+	}
 }
 
 // ---------------------------------------------------------------------------
